@@ -155,7 +155,12 @@ def gen_searchspec(ch, cfg: dict) -> SearchSpec:
         # several occurrences: a raising combination next to satisfied ones
         items += [("rep", ("cat", (("nt", "fe"), ("lit", "."))), 1, 3), ("rep", ("cat", (("nt", "fz"), ("lit", "."))), 1, 3), ("nt", "row"), ("lit", "|")]
     for k in range(1, r + 1):
-        items.append(("nt", "lst_%d" % k))
+        if ch.coin(cfg.get("optional_crep_rate", 0.3), "spec", "crep-in-alternative"):
+            # the computed repetition sits in one alternative only: trees that take the other one
+            # do not contain it at all (its bounds constraint has nothing to count there)
+            items.append(("alt", (("nt", "lst_%d" % k), ("lit", "%"))))
+        else:
+            items.append(("nt", "lst_%d" % k))
     n_gen = ch.weighted([5, 3, 2], "spec", "ngen") if cfg.get("generators", True) else 0
     if n_gen:
         items.append(("lit", "|"))
@@ -280,6 +285,10 @@ def gen_searchspec(ch, cfg: dict) -> SearchSpec:
         n_extra = 1 + ch.draw(len(s.cons), "spec", "nextra")
     s.extra_constraints = [c["text"][len("where ") :] for c in s.cons[len(s.cons) - n_extra :]] if n_extra else []
     s.constraints = [c["text"] for c in (s.cons[: len(s.cons) - n_extra] if n_extra else s.cons)]
+    if s.constraints and ch.coin(cfg.get("cons_first_rate", 0.4), "spec", "cons-first"):
+        # "all orders of declaring them": some where-clauses come before the rules (and so before
+        # the repetition-bound constraints the computed repetitions give rise to)
+        s.meta["cons_first"] = 1 + ch.draw(len(s.constraints), "spec", "n-cons-first")
     s.py_prelude = ["LIM = 900"]
     if n_gen or n_dep:
         s.py_prelude.append("from simfw import bridge as _vb")
